@@ -8,7 +8,10 @@ string set with anyOf/allOf, fk set) for values that spell words / syntax of the
 values (empty string, blanks, quotes, control bytes, non-UTF-8 stored bytes, long) and escape-alphabet strings;
 stream M: filters with SEVERAL comparisons in which literals repeat (identical token, case variant, prefix, escaped
 spelling) across operators, fields, in-lists, set functions and sub-queries, joined by and / or / not, and sequences of
-filters parsed in one process - every literal occurrence must denote its own string (model Lang/StrFilter.v)."""
+filters parsed in one process - every literal occurrence must denote its own string (model Lang/StrFilter.v);
+in-lists by LENGTH and ORDER (c11l.go, Q and M cases): 1..21 and 32 / 64 / 257 literals (thorough up to 1000) written ascending,
+descending, shuffled, with duplicates, rotated, the probed literal at every position, every list value a stored row - membership
+in the set of denoted strings whatever the length and order (theorem in_list_length_order_independent)."""
 import json
 import os
 
@@ -115,6 +118,16 @@ def q_mismatch(want, got):
     return None
 
 
+def q_own_row(cf, want, got, idx):
+    """in / not in: prefer, among the rows that contradict the oracle, the one that holds s itself"""
+    path, op, ctx, esc, s, k, decoys, rows = q_parse(cf)
+    if op in ("in", "notin") and len(got) == len(want) == len(rows):
+        for j, row in enumerate(rows):
+            if row == vlib_hex(s) and want[j] != "x" and got[j] in "01" and got[j] != want[j]:
+                return j
+    return idx
+
+
 def q_describe(cf, fi, want, idx):
     path, op, ctx, esc, s, k, decoys, rows = q_parse(cf)
     got = fi[1] if len(fi) > 1 else ""
@@ -126,8 +139,14 @@ def q_describe(cf, fi, want, idx):
         return "filter %r (literal of %r as operand of %s on %s) is not evaluated: %s" % (qtext, s, Q_OPTEXT[op], Q_LHS[path], got)
     row = rows[idx]
     shown = "no value" if row == "~" else ", ".join(repr(unhex(h)) for h in row.split(","))
-    return ("filter %r: the literal must denote %r, so the row holding %s must %sbe selected, but it is%s (rows selected %s, "
-            "expected %s)" % (qtext, s, shown, "" if want[idx] == "1" else "not ", " not" if want[idx] == "1" else "", got, want))
+    denote = "the literal must denote %r" % s
+    if op in ("in", "notin") and decoys:
+        vals = decoys[:k] + [s] + decoys[k:]
+        denote = "the %d literals must denote %s" % (len(vals), ", ".join(repr(v) for v in vals[:24]) + (" .." if len(vals) > 24 else ""))
+    return ("filter %r: %s, so the row holding %s must %sbe selected, but it is%s (rows selected %s, "
+            "expected %s)" % (qtext if len(qtext) <= 600 else qtext[:600] + " ..", denote, shown, "" if want[idx] == "1" else "not ",
+                              " not" if want[idx] == "1" else "", got if len(got) <= 80 else got[:80] + "..",
+                              want if len(want) <= 80 else want[:80] + ".."))
 
 
 def q_shrink_candidates(cf, idx):
@@ -150,11 +169,21 @@ def q_shrink_candidates(cf, idx):
                     subs.append(sub)
     for c2 in ctxs:
         for k2, dec2 in decs:
-            if path not in ("any", "all", "anyfk"):
+            if path not in ("any", "all", "anyfk") and len(dec2) <= 3:
                 for sub in subs:      # the value itself stored, queried by its own literal
                     if path != "id" or sub:
                         out.append(line(sub, k2, dec2, [vlib_hex(sub)], c2))
             out.append(line(s, k2, dec2, [bad], c2))
+    if len(decoys) > 3:
+        # a long list: is the length / the order / the position what matters?  shorter lists (prefixes of the list, the
+        # list without one of its literals), and the same list written ascending / descending / with s first or last
+        for c2 in ctxs:
+            for n2 in range(len(decoys)):
+                out.append(line(s, min(k, n2), decoys[:n2], [bad], c2))
+                out.append(line(s, k - 1 if n2 < k else k, decoys[:n2] + decoys[n2 + 1:], [bad], c2))
+            for dec2 in (sorted(decoys), sorted(decoys, reverse=True)):
+                for k2 in (0, len(dec2), sum(1 for d in dec2 if d < s)):
+                    out.append(line(s, k2, dec2, [bad], c2))
     out.append(" ".join(cf))
     seen, uniq = set(), []
     for l in out:
@@ -168,7 +197,7 @@ def vlib_hex(b):
     return "-" if not b else b.hex()
 
 
-def q_shrink(c, harness, cf, idx):
+def q_shrink(c, harness, cf, idx, rounds=12):
     """re-run smaller variants of a violating case on the current tree; return the smallest that still violates"""
     cands = q_shrink_candidates(cf, idx)
     wd = os.path.join(c.work, "shrink")
@@ -188,8 +217,43 @@ def q_shrink(c, harness, cf, idx):
         got = fi2[1] if len(fi2) > 1 else ""
         j = q_mismatch(want, got)
         if j is not None and (best is None or q_size(case) < q_size(best[0])):
-            best = (case, i, want, j)
+            best = (case, i, want, q_own_row(cf2, want, got, j))
+    if best is not None and rounds > 0 and int(best[0].split()[7]) > 3 and q_size(best[0]) < q_size(" ".join(cf)):
+        return q_shrink(c, harness, best[0].split(), best[3], rounds - 1) or best      # long list: drop further literals
     return best
+
+
+def q_list_note(c, harness, cf):
+    """for a violating case with a long in-list: does the verdict depend on the length / the order of the list?"""
+    path, op, ctx, esc, s, k, decoys, rows = q_parse(cf)
+    if len(decoys) <= 3 or c.replay:
+        return ""
+
+    def line(k2, dec2):
+        return " ".join(["Q", path, op, ctx, esc, vlib_hex(s), str(k2), str(len(dec2))] + [vlib_hex(d) for d in dec2]
+                        + [str(len(rows))] + rows)
+    full = decoys[:k] + [s] + decoys[k:]
+    extra = max(full) + b"z"
+    variants = [("without any one of its literals", [line(k - 1 if n < k else k, decoys[:n] + decoys[n + 1:]) for n in range(len(decoys))]),
+                ("with one more literal", [line(k, decoys + [extra])]),
+                ("written in ascending order", [line(sum(1 for d in decoys if d < s), sorted(decoys))]),
+                ("written in descending order", [line(sum(1 for d in decoys if d > s), sorted(decoys, reverse=True))])]
+    wd = os.path.join(c.work, "shrink-note")
+    os.makedirs(wd, exist_ok=True)
+    rin = os.path.join(wd, "in.txt")
+    with open(rin, "w") as f:
+        f.write("\n".join(l for _, ls in variants for l in ls) + "\n")
+    rc, out = vlib.run([harness, "c11", "--out", wd, "--replaycase", rin], timeout=600)
+    if rc != 0:
+        return ""
+    res = list(zip(vlib.read_lines(os.path.join(wd, "cases.txt")), vlib.read_lines(os.path.join(wd, "impl.txt"))))
+    notes, pos = [], 0
+    for name, ls in variants:
+        chunk = res[pos:pos + len(ls)]
+        pos += len(ls)
+        bad = sum(1 for case, i in chunk if q_mismatch(q_expected(case.split()), (i.split() + [""])[1]) is not None)
+        notes.append("%s: %s" % (name, "evaluated correctly" if bad == 0 else ("wrong" if len(ls) == 1 else "%d of %d wrong" % (bad, len(ls)))))
+    return "; in-list of %d literals - the same list %s" % (len(full), ", ".join(notes))
 
 
 Q_PATH_RANK = {"name": 0, "sym": 0, "id": 1, "any": 2, "all": 3, "fk": 4, "anyfk": 5}
@@ -740,7 +804,7 @@ def main(argv):
             path, op = cf[1], cf[2]
             if idx is not None:
                 key = ("C11:end-to-end-" if path == "sym" else "C11:stored-") + op
-                q_viol.setdefault(key, []).append((case, i, want, idx))
+                q_viol.setdefault(key, []).append((case, i, want, q_own_row(cf, want, got, idx)))
             elif fm[1:2] != ["?"] and fm[1:2] != fi[1:2]:
                 disagreements.append((case, i, m))
             if "1" in want and "0" in want:
@@ -764,7 +828,8 @@ def main(argv):
         small = None if c.replay else q_shrink(c, harness, case.split(), idx)
         if small is not None:
             case, i, want, idx = small
-        c.violation(key, "%s [%d failing cases of this kind]" % (q_describe(case.split(), i.split(), want, idx), len(lst)),
+        c.violation(key, "%s%s [%d failing cases of this kind]" % (q_describe(case.split(), i.split(), want, idx),
+                                                                    q_list_note(c, harness, case.split()), len(lst)),
                     dict(case=case, impl=i, expected=want, value=repr(unhex(case.split()[5])),
                          query=(unhex(i.split()[2]).decode("utf-8", "replace") if len(i.split()) > 2 else None)))
     if c.replay:
@@ -784,6 +849,10 @@ def main(argv):
                      "of its relatives - case variants, prefix, extension, blanks, escaped spelling -, set-valued left-hand sides, "
                      "isEmpty / count sub-queries with the literal inside and outside, random and / or / not trees), parsed in "
                      "order before evaluation and parsed again afterwards, over rows with two fields, a set and an fk set. "
+                     "In-lists by length and order (Q and M cases): 1..21 (thorough 1..32) and 32 / 64 / 257 (thorough .. 1000) literals, "
+                     "ascending / descending / shuffled / duplicates / rotated / one swap, the literal of s at every position, in and "
+                     "not in, letters / ids / prefixes incl. the empty string / long common prefix / mixed values, rows = every list "
+                     "value + non-members around the smallest, median and largest. "
                      "Non-trivial: contains a backslash, "
                      "quote or control character (L), a backslash (T), any body (B), any expressible E case, a Q / M case whose "
                      "oracle selects some rows and rejects others; distinct by case text"
